@@ -38,10 +38,19 @@ def run(mid, props):
         time.sleep(5)
     open(lock, "w").write(mid)
     os.environ["VERIF_SEEDED"] = "1"
-    # let check runs that started before the lock finish on the clean tree
+    # let check runs that passed the lock before it was taken finish on the clean tree
+    rundir = os.path.join(V, "build", "running")
     for _ in range(720):
-        ps = sh(["pgrep", "-f", "check.py C"]).stdout.split()
-        if not [x for x in ps if int(x) != os.getpid()]:
+        alive = []
+        for f in (os.listdir(rundir) if os.path.isdir(rundir) else []):
+            if os.path.exists("/proc/" + f):
+                alive.append(f)
+            else:
+                try:
+                    os.remove(os.path.join(rundir, f))
+                except OSError:
+                    pass
+        if not alive:
             break
         time.sleep(5)
     p = sh(["git", "-C", "/repo", "apply", os.path.join(d, "patch.diff")])
